@@ -26,7 +26,10 @@ class SingletonPoolSink(PoolSink):
       return AsyncResult.Complete()
 
     def TryGet():
-      self._Get()
+      # Every holder may have closed the pool again before this ran: do not
+      # create a connection that nobody is left to close.
+      if self._ref_count > 0:
+        self._Get()
       return True
     # We don't want to link _Get directly as it'll hold a reference
     # to the sink returned forever.
